@@ -1051,7 +1051,10 @@ func (app *App) updateActiveNodes(clusterState, clusterStateDcs map[string]*node
 
 	errs := app.disableSemiSyncOnSlaves(becomeInactive, becomeDataLag)
 	if len(errs) > 0 {
-		app.logger.Warn().Msgf("cannot disable semisync on inactive hosts: %s", err)
+		app.logger.Warn().Msgf("cannot disable semisync on inactive hosts: %v", errs)
+		// a replica that may still acknowledge commits must not be evicted from the
+		// published active nodes: leave the list as it is and retry on the next iteration
+		return errors.Join(errs...)
 	}
 
 	for _, hostname := range becomeActive {
